@@ -51,3 +51,40 @@ Example C31_nonvacuous :
   active_steps {| running := true; cfg := cfg0; workers := [(1, w1); (2, w2)] |} = [1].
 Proof. reflexivity. Qed.
 Print Assumptions C31_nonvacuous.
+
+(* ------------------------------------------------------------------------------------------------------------ *)
+(* The run loop, every schedule (Proofs/RunnerEnds.v; definitions restated in C04_run_loop_definitions_are)       *)
+(* ------------------------------------------------------------------------------------------------------------ *)
+From WF Require Import Model.ServerPersist Proofs.RunnerEnds.
+
+(* a run that timed out: its stream is (no terminal event)* followed by exactly one WorkflowTimedOutEvent;
+   a run that was cancelled: ... exactly one WorkflowCancelledEvent; nothing is published after either *)
+Theorem C31_run_loop_timeout_event_is_the_last_stream_event : forall P s e now acts,
+  Forall (action_clean (c_stop (cfg s))) acts ->
+  Runner.outcome (run_at P s e now acts) = Runner.OTimedOut ->
+  exists pre t a, published (run_at P s e now acts) = pre ++ [PTimedOut t a] /\ no_term (c_stop (cfg s)) pre.
+Proof. exact run_timeout_is_last. Qed.
+Print Assumptions C31_run_loop_timeout_event_is_the_last_stream_event.
+
+Theorem C31_run_loop_cancelled_event_is_the_last_stream_event : forall P s e now acts,
+  Forall (action_clean (c_stop (cfg s))) acts ->
+  Runner.outcome (run_at P s e now acts) = Runner.OCancelled ->
+  exists pre, published (run_at P s e now acts) = pre ++ [PCancelled] /\ no_term (c_stop (cfg s)) pre.
+Proof. exact run_cancel_is_last. Qed.
+Print Assumptions C31_run_loop_cancelled_event_is_the_last_stream_event.
+
+(* non-vacuity: the same workflow cancelled while its first step is running, and timed out *)
+Example C31_run_loop_nonvacuous :
+  let c acc n := {| accepts := acc; nworkers := n; pol := None |} in
+  let wk acc n := {| w_cfg := c acc n; queue := []; inprogress := []; collected := []; waiters := [] |} in
+  let s0 := {| running := true;
+               cfg := {| c_handler_for := []; c_handlers := []; c_start := [0]; c_stop := [9];
+                         c_inputreq := [8]; c_ty_stepfailed := 7 |};
+               workers := [(1, wk [0] 1%nat); (2, wk [1] 2%nat)] |} in
+  let ev ty i := {| ety := ty; eid := i; eattrs := [] |} in
+  let r1 := run_at (fun _ _ _ _ => PStop) s0 (ev 0 1) 100 [ADeliver TCancel] in
+  let r2 := run_at (fun _ _ _ _ => PStop) s0 (ev 0 1) 100 [ADeliver (TTimeout 5)] in
+  Runner.outcome r1 = Runner.OCancelled /\ last (published r1) PIdle = PCancelled /\
+  Runner.outcome r2 = Runner.OTimedOut /\ last (published r2) PIdle = PTimedOut 5 [1].
+Proof. vm_compute. repeat split; reflexivity. Qed.
+Print Assumptions C31_run_loop_nonvacuous.
